@@ -1,6 +1,7 @@
 package main
 
 import (
+	"os"
 	"fmt"
 	"go/types"
 	"strings"
@@ -240,6 +241,10 @@ func propC14(a *Analysis, r *Registry) {
 	}
 	if fn := b.Fn("B-C14 formula", "stats.HistogramIQR"); fn != nil {
 		b.guard("B-C14 formula", "stats.HistogramIQR", func() {
+			if os.Getenv("GMSA_DEBUG_C14") != "" {
+				fmt.Fprintln(os.Stderr, "IQR got:", X.FCFor(fn).RetVal(0))
+				fmt.Fprintln(os.Stderr, "IQR want:", X.EnvFor(fn, "h").MustParse("HistogramQuantile(h,0.75)-HistogramQuantile(h,0.25)"))
+			}
 			b.Eq("B-C14 formula", "stats.HistogramIQR", b.pos(fn), X.FCFor(fn).RetVal(0), X.EnvFor(fn, "h"), "HistogramQuantile(h,0.75)-HistogramQuantile(h,0.25)")
 		})
 	}
